@@ -25,6 +25,27 @@ Theorem c10_no_leak_histories : forall h o, Forall (entitled_at (fst (run init h
 Proof. intros h o. exact (no_leak_all _ o). Qed.
 Print Assumptions c10_no_leak_histories.
 
+(* In every reachable state the sessions attached to a p2p/group topic belong to users who are current,
+   non-deleted subscribers (evictUser detaches the sessions of removed and banned users) ... *)
+Theorem c10_members : forall s, reach s -> members_ok s.
+Proof. exact members_ok_reach. Qed.
+Print Assumptions c10_members.
+
+(* ... hence, for all histories and interleavings: a {pres} frame handed out by a p2p/group topic reaches only
+   sessions of CURRENT NON-DELETED subscribers whose want & given has P (acs and gone excepted: P is not
+   required for these two, membership still is); a frame handed out by a 'me' topic reaches its owner only.
+   Strangers and removed users never get a frame. *)
+Theorem c10_no_leak_reachable : forall s i g rest sid user top src w,
+  reach s -> take_nth i [] (s_net s) = Some (g, rest) ->
+  In (Frame sid user top src w) (snd (step s (Deliver i))) ->
+  match top with
+  | TMe u => user = u
+  | t => exists x, get_top s t = Some x /\ In (sid, user) (t_sess x) /\ cached x user = true /\
+                   (exempt w = false -> is_presencer (p_mode (get_pud x user)) = true)
+  end.
+Proof. exact no_leak_reach. Qed.
+Print Assumptions c10_no_leak_reachable.
+
 (* At the SOURCE: a notification which a p2p/group topic addresses to its subscribers' 'me' topics
    (presSubsOffline: on/off/msg/del/upd/...) goes only to non-deleted subscribers whose mode has P; the
    exemptions of presOfflineFilter (pres.go:708-719) are exactly: acs, gone, and upd for joiners. *)
